@@ -252,6 +252,14 @@ def run_history(desc, abstract_reqs, decoder=None, per_step_dump=False):
     dec = decoder or ServerDecoder()
     model_reqs, outs, dumps = [], [], []
     for r in abstract_reqs:
+        if r.get('t') == '_reset':
+            # the application puts the unit back to its defaults at run time: ModbusSlaveContext.reset()
+            ctx.reset()
+            outs.append({'reset': True})
+            model_reqs.append('RESET')
+            if per_step_dump:
+                dumps.append(dump_slave(blocks))
+            continue
         pdu = enc_req(r)
         try:
             obj = dec.decode(pdu)
@@ -279,6 +287,17 @@ def run_history(desc, abstract_reqs, decoder=None, per_step_dump=False):
     return model_reqs, outs, dumps, dump_slave(blocks)
 
 
+def with_resets(rng, reqs, p=0.2):
+    """now and then the application resets the unit in the middle of a history (`ModbusSlaveContext.reset()`): all cells go
+    back to their defaults, the tables keep their addresses"""
+    if len(reqs) < 2 or rng.random() >= p:
+        return reqs
+    out = list(reqs)
+    for _ in range(rng.choice([1, 1, 2])):
+        out.insert(rng.randrange(1, len(out)), {'t': '_reset'})
+    return out
+
+
 def cells_in(dump, w):
     return sorted([k, v] for k, v in dump if w[0] <= k <= w[1])
 
@@ -288,19 +307,41 @@ def check_histories(ctx, rep, cases, tag, per_step=False, classify=None):
     prepared = []
     q = []
     for desc, reqs in cases:
+        orig_reqs = list(reqs)
         model_reqs, outs, dumps, final = run_history(desc, reqs, per_step_dump=per_step and len(reqs) > 1)
         if per_step and len(reqs) == 1:
             dumps = [final]
+        prevs = [None] + list(dumps[:-1]) if dumps else []      # the dump right BEFORE each step (None = the initial tables)
+        has_reset = any(m == 'RESET' for m in model_reqs)
+        if has_reset:
+            # take the reset steps out of the request lists; tell the model / the spec before which request each one happens
+            resets, spec_resets, nm, ns = [], [], 0, 0
+            for m in model_reqs:
+                if m == 'RESET':
+                    resets.append(nm)
+                    spec_resets.append(ns)
+                else:
+                    ns += 1
+                    nm += 1 if m is not None else 0
+            idx = [i for i, m in enumerate(model_reqs) if m != 'RESET']
+            reqs = [reqs[i] for i in idx]
+            model_reqs = [model_reqs[i] for i in idx]
+            outs = [outs[i] for i in idx]
+            if dumps:
+                dumps = [dumps[i] for i in idx]
+                prevs = [prevs[i] for i in idx]
         keep = [i for i, m in enumerate(model_reqs) if m is not None]
         op = {'op': 'exec', 'ctx': desc, 'reqs': [model_reqs[i] for i in keep],
               'spec_reqs': [strip(r) for r in reqs], 'windows': windows(desc)}
+        if has_reset:
+            op['resets'], op['spec_resets'] = resets, spec_resets
         if per_step and len(reqs) > 1:
             op['dump_each'] = True
         q.append(op)
-        prepared.append((desc, reqs, model_reqs, outs, dumps, final, keep))
+        prepared.append((desc, reqs, model_reqs, outs, dumps, final, keep, orig_reqs, prevs))
     answers = ctx.driver.query(q)
-    for (desc, reqs, model_reqs, outs, dumps, final, keep), ans in zip(prepared, answers):
-        case = {'kind': 'exec', 'ctx': desc, 'reqs': reqs}
+    for (desc, reqs, model_reqs, outs, dumps, final, keep, orig_reqs, prevs), ans in zip(prepared, answers):
+        case = {'kind': 'exec', 'ctx': desc, 'reqs': orig_reqs}
         normal = sum(1 for o in outs if o.get('t') not in (None, 'exception'))
         rep.case(case, nontrivial=normal > 0, tag=tag)
         for o in outs:
@@ -332,12 +373,11 @@ def check_histories(ctx, rep, cases, tag, per_step=False, classify=None):
             continue
         # C05 clause: an exception response changes nothing (checked on the real dumps per step)
         if per_step:
-            prev = None
             ctx0, blocks0 = mk_slave(desc)
-            prev = dump_slave(blocks0)
+            initial = dump_slave(blocks0)
             for i, o in enumerate(outs):
+                prev = prevs[i] if (i < len(prevs) and prevs[i] is not None) else (initial if i == 0 or not prevs else dumps[i - 1])
                 if o.get('t') == 'exception' and dumps[i] != prev:
                     rep.violation('an exception response was sent but a table changed', case, index=i,
                                   request=strip(reqs[i]), response=o)
                     break
-                prev = dumps[i]
